@@ -4,19 +4,29 @@ package nsqlookupd
 
 // C14 - nsqlookupd answers reflect exactly the live registrations.
 //
-// verifC14World drives the REAL RegistrationDB, the REAL LookupProtocolV1 handlers (through
-// Exec), the REAL IOLoop exit path and the REAL undecorated HTTP handlers, and keeps next to
-// them a plain registry model (verifC14Model) written from the property statement. Structure
-// (who is registered where) is concrete on every path; every instant (clock readings) and both
-// thresholds (inactive-producer timeout, tombstone lifetime) are symbolic, so the solver decides
-// the time-dependent part of every answer for all clocks and all settings at once.
+// verifC14World drives the REAL daemon code end to end - tcpServer.Handle (protocol magic, client
+// creation, connection close), LookupProtocolV1.IOLoop (line parsing, dispatch, response
+// framing, fatal-error handling, the exit path that drops a peer's registrations), the
+// IDENTIFY / REGISTER / UNREGISTER / PING handlers, the RegistrationDB and the undecorated HTTP
+// handlers of httpServer - and keeps next to it a plain registry model (verifC14Model) written
+// from the property statement. Every connection is a stub net.Conn whose byte stream the harness
+// feeds command by command; the daemon side runs in its own goroutine exactly as in production.
+// Structure (who is registered where) is concrete on every path; every instant (clock readings)
+// and both thresholds (inactive-producer timeout, tombstone lifetime) are symbolic, so the solver
+// decides the time-dependent part of every answer for all clocks and all settings at once.
 //
 // Time in the oracle: the code reads the clock somewhere inside an operation. The harness reads
 // the same monotone model clock immediately before and after each time-relevant operation, so
-// the model knows every instant the operation used only up to an interval [lo,hi]. A producer MUST be listed when it qualifies for
-// every instant in the intervals, MUST NOT be listed when it is disqualified for every instant,
-// and is unconstrained in between (the intervals collapse when the solver picks equal readings,
-// so exact threshold behaviour - <= versus < - is still pinned).
+// the model knows every instant the operation used only up to an interval [lo,hi]. A producer
+// MUST be listed when it qualifies for every instant in the intervals, MUST NOT be listed when
+// it is disqualified for every instant, and is unconstrained in between (the intervals collapse
+// when the solver picks equal readings, so exact threshold behaviour - <= versus < - is still
+// pinned).
+//
+// Where the statement is silent the model follows the implementation's choice instead of
+// demanding one: the presence of an EMPTY ephemeral key after a disconnect, after a topic-level
+// UNREGISTER emptied one of its channels, or after somebody who was not registered sent
+// UNREGISTER for it. Pinned: an ephemeral key is gone once its last producer unregistered it.
 
 import (
 	"encoding/json"
